@@ -9,6 +9,7 @@ import (
 	"fmt"
 	"os"
 	"reflect"
+	"sort"
 	"strings"
 	"sync"
 	"time"
@@ -39,7 +40,7 @@ type replayCase struct {
 }
 
 type counters struct {
-	structured, accepted, bytesIn, mutants, jsonIn, notOnWire, duplicates int
+	structured, accepted, bytesIn, mutants, jsonIn, jsonTok, notOnWire, duplicates int
 }
 
 func baseName(plausible bool) string {
@@ -396,7 +397,75 @@ func run(c *core.C) {
 	}
 
 	cnt := &counters{}
-	// 1. decoders: every byte string up to the bound, every single mutation of the valid inputs.
+	phase := map[string]float64{}
+	// 2. structured JSON inputs for the JSON decoders
+	for _, fam := range jsonFamilies() {
+		d, ok := byName[fam.Decoder]
+		if !ok {
+			c.Broken("json family refers to unknown decoder %s", fam.Decoder)
+			continue
+		}
+		jsonObjects(fam.Fields, 2, c.Quick(), func(obj string) bool {
+			cnt.jsonIn++
+			feed(c, d, []byte(fam.Wrap(obj)))
+			return cnt.jsonIn%512 != 0 || !c.TimeUp()
+		})
+	}
+	// 2b. JSON-token enumeration: every sequence of <= 3 (thorough 4) tokens is a whole input of every
+	// JSON-decoding target, raw and as the value of each known top-level / nested field
+	maxTok := core.Pick(c, 3, 4)
+	jt := jsonTargets()
+	var jtNames []string
+	for name := range jt {
+		jtNames = append(jtNames, name)
+	}
+	sort.Strings(jtNames)
+	for _, name := range jtNames {
+		d, ok := byName[name]
+		if !ok {
+			c.Broken("json token target refers to unknown decoder %s", name)
+			continue
+		}
+		for wi, w := range jt[name] {
+			n := maxTok
+			if w != "%s" && n > 3 {
+				n = 3 // wrapped sequences: the raw family carries the longer ones
+			}
+			if w != "%s" && c.Quick() {
+				n = 2
+			}
+			_ = wi
+			tokenSequences(n, func(seq string) bool {
+				cnt.jsonTok++
+				feed(c, d, []byte(strings.Replace(w, "%s", seq, 1)))
+				return cnt.jsonTok%4096 != 0 || !c.TimeUp()
+			})
+		}
+	}
+	phase["json_s"] = time.Since(c.Start).Seconds()
+	// 3. structured messages
+	nMsgs := 0
+	for _, t := range targets {
+		if t.IsMsg {
+			nMsgs++
+		}
+		if t.Method == "none" {
+			c.Hist("targets_without_validation", t.URL)
+			continue
+		}
+		before := cnt.structured
+		exploreTarget(&env{c, fx, cdc, cnt, anyChoices}, t, nil)
+		if (cnt.structured-before) > 0 && len(t.URL)%5 == 0 {
+			c.Sample(map[string]any{"target": t.URL, "method": t.Method, "structured_cases": cnt.structured - before})
+		}
+		if c.TimeUp() {
+			break
+		}
+	}
+	c.Sample(map[string]any{"decoder": decs[0].Name, "valid_input": string(decs[0].Valid[0])})
+
+	phase["messages_s"] = time.Since(c.Start).Seconds() - phase["json_s"]
+	// 4. (last, because it is the longest part and the one a time cap may cut) decoders: every byte string up to the bound, every single mutation of the valid inputs.
 	// Decoders are independent and stateless, so they are enumerated by a small pool of workers;
 	// the set of inputs and of reported keys does not depend on the scheduling.
 	maxLen := 2
@@ -443,47 +512,11 @@ func run(c *core.C) {
 		}(di, d, n)
 	}
 	wg.Wait()
-	phase := map[string]float64{"decoders_s": time.Since(c.Start).Seconds()}
+	phase["decoders_s"] = time.Since(c.Start).Seconds() - phase["json_s"] - phase["messages_s"]
 	for _, tl := range tallies {
 		cnt.bytesIn += tl.bytesIn
 		cnt.mutants += tl.mutants
 	}
-	// 2. structured JSON inputs for the JSON decoders
-	for _, fam := range jsonFamilies() {
-		d, ok := byName[fam.Decoder]
-		if !ok {
-			c.Broken("json family refers to unknown decoder %s", fam.Decoder)
-			continue
-		}
-		jsonObjects(fam.Fields, 2, c.Quick(), func(obj string) bool {
-			cnt.jsonIn++
-			feed(c, d, []byte(fam.Wrap(obj)))
-			return cnt.jsonIn%512 != 0 || !c.TimeUp()
-		})
-	}
-	phase["json_s"] = time.Since(c.Start).Seconds() - phase["decoders_s"]
-	// 3. structured messages
-	nMsgs := 0
-	for _, t := range targets {
-		if t.IsMsg {
-			nMsgs++
-		}
-		if t.Method == "none" {
-			c.Hist("targets_without_validation", t.URL)
-			continue
-		}
-		before := cnt.structured
-		exploreTarget(&env{c, fx, cdc, cnt, anyChoices}, t, nil)
-		if (cnt.structured-before) > 0 && len(t.URL)%5 == 0 {
-			c.Sample(map[string]any{"target": t.URL, "method": t.Method, "structured_cases": cnt.structured - before})
-		}
-		if c.TimeUp() {
-			break
-		}
-	}
-	c.Sample(map[string]any{"decoder": decs[0].Name, "valid_input": string(decs[0].Valid[0])})
-
-	phase["messages_s"] = time.Since(c.Start).Seconds() - phase["decoders_s"] - phase["json_s"]
 	c.Set("phase_seconds_informational", phase)
 	c.Set("targets_validation", len(targets))
 	c.Set("targets_sdk_msgs", nMsgs)
@@ -491,13 +524,16 @@ func run(c *core.C) {
 	c.Set("byte_strings", cnt.bytesIn)
 	c.Set("mutants_of_valid_encodings", cnt.mutants)
 	c.Set("structured_json_inputs", cnt.jsonIn)
+	c.Set("json_token_inputs", cnt.jsonTok)
+	c.Set("json_token_targets", len(jtNames))
+	c.Set("json_token_max_tokens", maxTok)
 	c.Set("structured_messages", cnt.structured)
 	c.Set("structured_messages_accepted", cnt.accepted)
 	c.Set("structured_cases_not_decodable_from_wire", cnt.notOnWire)
 	c.Set("structured_cases_with_identical_wire_form", cnt.duplicates)
-	c.Set("evaluations", cnt.bytesIn+cnt.mutants+cnt.jsonIn+cnt.structured)
+	c.Set("evaluations", cnt.bytesIn+cnt.mutants+cnt.jsonIn+cnt.jsonTok+cnt.structured)
 	c.Set("distinct_nontrivial", cnt.mutants+cnt.jsonIn+cnt.structured)
-	c.Set("rule", "decoders: every byte string of length <= decoder_max_len, every core.Mutations() mutant of each valid input, every structured JSON object with <= 2 fields off default; validation: for every registered ibc-go sdk.Msg (and every registered light-client ClientState / ConsensusState / ClientMessage carried inside MsgCreateClient / MsgUpdateClient), the zero value and a plausible base with every leaf field (recursively, through nested messages, first slice elements and oneofs) set to every value of its per-type alphabet, all single settings and all pairs (quick: pairs over the first 4 values of each alphabet); each case is marshalled, decoded with the application codec (as a transaction is) and validated on the decoded message, cases with identical wire form are evaluated once; non-trivial = mutants of valid encodings + structured JSON inputs + structured messages (distinct by construction); the raw short byte strings are counted in evaluations only")
+	c.Set("rule", "decoders: every byte string of length <= decoder_max_len, every core.Mutations() mutant of each valid input, every structured JSON object with <= 2 fields off default, and for every JSON-decoding target every concatenation of <= json_token_max_tokens tokens over {null,true,false,0,-1,1e999,empty string,string a,{,},[,],:,comma,space,newline} as a whole input (raw) and of <= 2 (thorough 3) tokens as the value of each known field; validation: for every registered ibc-go sdk.Msg (and every registered light-client ClientState / ConsensusState / ClientMessage carried inside MsgCreateClient / MsgUpdateClient), the zero value and a plausible base with every leaf field (recursively, through nested messages, first slice elements and oneofs) set to every value of its per-type alphabet, all single settings and all pairs (quick: pairs over the first 4 values of each alphabet); each case is marshalled, decoded with the application codec (as a transaction is) and validated on the decoded message, cases with identical wire form are evaluated once; non-trivial = mutants of valid encodings + structured JSON inputs + structured messages (distinct by construction); the raw short byte strings are counted in evaluations only")
 	c.Assume("panic freedom for all inputs is decided for the enumerated small scope only (short byte strings, single mutations of valid encodings, <=2 fields off default), not by fuzzing")
 	c.Assume("follow-up calls that are not validation or decoding (re-encoding, Must* helpers, commitments) are not part of the targets")
 }
